@@ -817,3 +817,5 @@ B("b60", ["C18", "C03"], BATCH, "            self.n_batches = (\n               
   "            self.n_batches = -(-states_per_device // self.batch_size)", "ceiling division by negated floor division")
 M("m168", "C05", "R5.3", PI, "n_changed = jnp.any(new_policy != self.policy, axis=1).sum()", "n_changed = jnp.any(jnp.abs(new_policy - self.policy) > 1, axis=1).sum()",
   "policy change counted only when a component moves by more than one unit")
+B("b61", ["C19", "C14", "C16"], SPACES, "tuple(vector - mins), dimensions, mode=\"clip\")", "tuple(jnp.subtract(vector, mins)), dims=dimensions, mode=\"clip\")",
+  "ravel_multi_index called with dims= by keyword and the shift written as jnp.subtract")
